@@ -127,15 +127,17 @@ def render(tokens, u=0, g=-1, v=0, r=0, case=0, quote=0, esc_index=-1, esc_style
             out.append(f)
         elif isinstance(t, tuple):
             kind, text = t
-            if kind == 'ci':
-                out.append(_case(text, CASES[case]))
-            elif kind == 'str':
+            if kind == 'str':
                 out.append(QUOTES[quote] + text + QUOTES[quote])
             else:
+                if kind == 'ci':
+                    text = _case(text, CASES[case])
                 if ni == esc_index and ESCAPES[esc_style] != 'none':
-                    out.append(_escape(text, ESCAPES[esc_style]))
-                else:
-                    out.append(text)
+                    if text.startswith('@'):
+                        text = '@' + _escape(text[1:], ESCAPES[esc_style])
+                    else:
+                        text = _escape(text, ESCAPES[esc_style])
+                out.append(text)
                 ni += 1
         else:
             ncomments += t.count('/*')
@@ -148,7 +150,7 @@ def ngaps(tokens):
 
 
 def nnames(tokens):
-    return sum(1 for t in tokens if isinstance(t, tuple) and t[0] == 'name')
+    return sum(1 for t in tokens if isinstance(t, tuple) and t[0] in ('name', 'ci'))
 
 
 # ---------------------------------------------------------------------- semantic projection
@@ -603,13 +605,19 @@ def replay(case):
                   'escape': ESCAPES[small['esc_style']] if small['esc_index'] >= 0 else None,
                   'escaped_token': None, 'case': CASES[small['case']] if small['case'] else None}
         if small['esc_index'] >= 0:
-            names = [t[1] for t in tokens if isinstance(t, tuple) and t[0] == 'name']
             # which kind of name: preceded by '.', '#', '@namespace', '|' ...
-            idx = [i for i, t in enumerate(tokens) if isinstance(t, tuple) and t[0] == 'name'][small['esc_index']]
+            idx = [i for i, t in enumerate(tokens) if isinstance(t, tuple) and t[0] in ('name', 'ci')][small['esc_index']]
             prev = next((x for x in reversed(tokens[:idx]) if x not in (OPT, REQ, WS)), '')
             prev = prev[1] if isinstance(prev, tuple) else prev
-            fields['escaped_token'] = {'.': 'class', '#': 'id', '|': 'namespaced-type', '[': 'attribute'}.get(
-                prev, 'namespace-prefix' if prev == '@namespace' else 'type')
+            tok = tokens[idx]
+            if tok[0] == 'ci':
+                t = tok[1]
+                fields['escaped_token'] = ('atkeyword' if t.startswith('@') else 'function:' + t if t.endswith('(') else
+                                           'unit' if prev and prev[-1:].isdigit() else 'priority' if prev == '!' else
+                                           'pseudo' if prev in (':', '::') else 'media-keyword' if t in ('and', 'min-width') else 'property-name')
+            else:
+                fields['escaped_token'] = {'.': 'class', '#': 'id', '|': 'namespaced-type', '[': 'attribute'}.get(
+                    prev, 'namespace-prefix' if prev == '@namespace' else 'type')
         fields['class'] = classify(fields, bad2[1])
         return {'reproduced': True, 'detail': '%s: %s' % bad2, 'fields': fields}
     bad = check_pair(cssutils, inp['a'], IDS[inp['b']], inp['u'])
